@@ -1,5 +1,6 @@
 import ChiaModel.Model.Generator
 import ChiaModel.Props.C04
+import ChiaModel.Lemmas.GenPaths
 /-
 C07 — both block-generator execution paths agree.
 Theorems about the two path models (Model/Generator.lean).  The interpreter is a parameter: `genRun`,
@@ -72,5 +73,354 @@ theorem legacy_cost (p : Params) (g : GenInput) (romRun : RunRes) (L : Nat) (b :
           have hle := C04.cost_le_limit _ _ _ _ _ _ _ h4
           simp only
           refine ⟨by omega, clvmCost, ret.cost, by omega, rfl⟩
+
+/-! ## legacy accepts ⇒ native accepts -/
+
+/-- `RomSpec`: the ROM transcription is exact on accepted runs — whenever the ROM run succeeds, its
+output is the tree `romModel` builds from the generator run and the puzzle runs (checked per case by
+the harness, which runs the real ROM in clvmr). -/
+def RomSpec (romRun genRun : RunRes) (puz : Nat → RunRes) : Prop :=
+  ∀ c out, romRun = some (c, out) → romModel genRun puz = some out
+
+/-- `RomCostDominates`: the ROM's cost is at least the generator's cost plus the sum of the costs of the
+puzzle runs of the spends in the generator's output (an assumption about CLVM cost accounting: the ROM
+*contains* these runs; monitored per case). -/
+def RomCostDominates (romRun genRun : RunRes) (puz : Nat → RunRes) : Prop :=
+  ∀ rc out gc spends args, romRun = some (rc, out) → genRun = some (gc, .pair spends args) →
+    gc + puzCostSum puz spends 0 ≤ rc
+
+/-- what "the same conditions" means between the two block paths: the spends are equal, in order,
+up to the per-spend `execution_cost` field (the legacy path passes `clvm_cost = 0` to
+`process_single_spend`), and every bundle-level field except `cost` and `execution_cost` is equal. -/
+def SameConditions (bn bl : Bundle) : Prop :=
+  bn.spends.map eraseExec = bl.spends.map eraseExec ∧
+  bn.reserveFee = bl.reserveFee ∧ bn.heightAbsolute = bl.heightAbsolute ∧ bn.secondsAbsolute = bl.secondsAbsolute ∧
+  bn.beforeHeightAbsolute = bl.beforeHeightAbsolute ∧ bn.beforeSecondsAbsolute = bl.beforeSecondsAbsolute ∧
+  bn.aggSigUnsafe = bl.aggSigUnsafe ∧ bn.removalAmount = bl.removalAmount ∧ bn.additionAmount = bl.additionAmount ∧
+  bn.conditionCost = bl.conditionCost ∧ bn.validatedSignature = bl.validatedSignature
+
+theorem sameConditions_of_execRel {a b : Bundle} (h : ExecRel a b) (ca ea cb eb : Nat) :
+    SameConditions { a with cost := ca, executionCost := ea } { b with cost := cb, executionCost := eb } := by
+  obtain ⟨h1, h2⟩ := h
+  refine ⟨h1, ?_⟩
+  rw [h2]
+  exact ⟨rfl, rfl, rfl, rfl, rfl, rfl, rfl, rfl, rfl, rfl⟩
+
+/-- decomposition of an accepting legacy run -/
+theorem legacy_ok {p : Params} {g : GenInput} {romRun : RunRes} {L : Nat} {bl : Bundle}
+    (h : legacy p g romRun L = .ok bl) :
+    ¬(simpleGen p.flags ∧ (!g.startsQuote) = true) ∧ ¬(simpleGen p.flags ∧ g.nrefs > 0) ∧
+    g.len * p.costPerByte ≤ L ∧ generatorNodeOk p.flags g.prog = true ∧
+    ∃ rc out ret st, romRun = some (rc, out) ∧ rc ≤ L - g.len * p.costPerByte ∧
+      parseSpends { flags := p.flags, mempool := false, pkOk := p.pkOk } p.sigOk out (L - g.len * p.costPerByte - rc) 0 = .ok (ret, st) ∧
+      bl = { ret with cost := ret.cost + (L - (L - g.len * p.costPerByte - rc)), executionCost := rc } := by
+  unfold legacy at h
+  split at h
+  · cases h
+  rename_i hq
+  split at h
+  · cases h
+  rename_i hr
+  cases h1 : subtractCost L (g.len * p.costPerByte) with
+  | error e => rw [h1] at h; cases h
+  | ok c1 =>
+    rw [h1] at h; simp only at h
+    split at h
+    · cases h
+    rename_i hnode
+    cases h2 : runWithLimit romRun c1 with
+    | error e => rw [h2] at h; cases h
+    | ok r =>
+      obtain ⟨clvmCost, out⟩ := r
+      rw [h2] at h; simp only at h
+      cases h3 : subtractCost c1 clvmCost with
+      | error e => rw [h3] at h; cases h
+      | ok c2 =>
+        rw [h3] at h; simp only at h
+        cases h4 : parseSpends { flags := p.flags, mempool := false, pkOk := p.pkOk } p.sigOk out c2 0 with
+        | error e => rw [h4] at h; cases h
+        | ok q =>
+          obtain ⟨ret, st⟩ := q
+          rw [h4] at h; simp only at h
+          injection h with h
+          obtain ⟨a1, a2⟩ := subtractCost_ok h1
+          obtain ⟨a3, a4⟩ := subtractCost_ok h3
+          obtain ⟨b1, b2⟩ := runWithLimit_ok h2
+          subst a2; subst a4
+          refine ⟨hq, hr, a1, by simpa using hnode, clvmCost, out, ret, st, b1, b2, h4, h.symm⟩
+
+/-- the size cost the native path charges: `interned_vbytes` under INTERNED_GENERATOR, the byte length otherwise -/
+def nativeSize (p : Params) (g : GenInput) : Nat :=
+  if hasFlag p.flags Gen.flagInternedGenerator then internedVbytes g.prog else g.len
+
+/-- **Legacy accepts ⇒ native accepts** — general form: it suffices that the native size measure does not
+exceed the byte length (`nativeSize p g ≤ g.len`; always true without INTERNED_GENERATOR, and with it
+exactly when `interned_vbytes ≤ len` — the recorded finding is a generator where this fails). -/
+theorem legacy_accepts_native_accepts_size (p : Params) (g : GenInput) (genRun romRun : RunRes) (puz : Nat → RunRes)
+    (L : Nat) (bl : Bundle)
+    (hrom : RomSpec romRun genRun puz) (hdom : RomCostDominates romRun genRun puz)
+    (hsize : nativeSize p g ≤ g.len)
+    (h : legacy p g romRun L = .ok bl) :
+    ∃ bn, native p g genRun puz L = .ok bn ∧ SameConditions bn bl ∧ bn.cost ≤ bl.cost ∧
+      bn.executionCost ≤ bl.executionCost := by
+  obtain ⟨hq, hr, hbase, hnode, rc, out, ret, st, hrun, hrc, hps, rfl⟩ := legacy_ok h
+  obtain ⟨gc, coinSpends, args, l, hgen, hrec, rfl⟩ := romModel_ok (hrom rc out hrun)
+  have hd := hdom rc _ gc coinSpends args hrun hgen
+  obtain ⟨iter, ret0, left, ret', hf, hloop, hfin, rfl, hleft⟩ := parseSpends_ok' hps
+  injection hf with hf; subst hf
+  have hB : nativeSize p g * p.costPerByte ≤ g.len * p.costPerByte := Nat.mul_le_mul_right _ hsize
+  generalize hBdef : nativeSize p g * p.costPerByte = B at hB
+  -- the native loop
+  obtain ⟨retN, hN, hrelN, hexN⟩ := nativeLoop_of_spendLoop { flags := p.flags, mempool := false, pkOk := p.pkOk } puz
+    coinSpends 0 l hrec {} { executionCost := gc } {} (spendLimit p.flags) (L - g.len * p.costPerByte - rc) ret0 st left
+    (L - B - gc - (L - g.len * p.costPerByte - rc + puzCostSum puz coinSpends 0)) hloop ⟨rfl, rfl⟩
+  have e1 : L - g.len * p.costPerByte - rc + puzCostSum puz coinSpends 0
+      + (L - B - gc - (L - g.len * p.costPerByte - rc + puzCostSum puz coinSpends 0))
+      = L - B - gc := by omega
+  rw [e1] at hN
+  obtain ⟨bn0, hfinN, hrel0, hex0⟩ := finishBundle_execRel (env := { flags := p.flags, mempool := false, pkOk := p.pkOk })
+    rfl p.sigOk hrelN st hfin
+  refine ⟨{ bn0 with cost := L - (left + (L - B - gc - (L - g.len * p.costPerByte - rc + puzCostSum puz coinSpends 0))) },
+    ?_, ?_, ?_, ?_⟩
+  · unfold native
+    rw [if_neg hq]
+    simp only
+    rw [show (if hasFlag p.flags Gen.flagInternedGenerator = true then internedVbytes g.prog else g.len) * p.costPerByte = B
+      from hBdef, subtractCost_of_le (by omega)]
+    simp only
+    rw [if_neg (by simp [hnode]), if_neg hr, hgen, runWithLimit_of_le (by omega)]
+    simp only
+    rw [subtractCost_of_le (by omega)]
+    simp only [first]
+    rw [if_neg (by simp [romRecurse_allExtract3 puz _ _ _ hrec]), hN]
+    simp only
+    rw [hfinN]
+  · have := sameConditions_of_execRel hrel0
+      (L - (left + (L - B - gc - (L - g.len * p.costPerByte - rc + puzCostSum puz coinSpends 0)))) bn0.executionCost
+      (L - g.len * p.costPerByte - rc - left + (L - (L - g.len * p.costPerByte - rc))) rc
+    exact this
+  · simp only; omega
+  · simp only
+    rw [hex0, hexN]
+    simp only; omega
+
+/-- **Legacy accepts ⇒ native accepts, with the same conditions and no higher cost.**
+Hypotheses: the ROM transcription is exact (`RomSpec`), the ROM's cost dominates the generator's cost
+plus the puzzle costs (`RomCostDominates`), and `INTERNED_GENERATOR` is not set (with it the native
+base cost is a different quantity — the recorded finding).  Claim: if the legacy path accepts under
+limit `L`, the native path accepts under the same limit; the two results have the same conditions
+(`SameConditions`: spends equal in order up to the per-spend `execution_cost`, all bundle-level
+condition fields, the addition/removal amounts, the condition cost and the signature flag equal);
+the native path reports no higher cost and no higher execution cost. -/
+theorem legacy_accepts_native_accepts (p : Params) (g : GenInput) (genRun romRun : RunRes) (puz : Nat → RunRes)
+    (L : Nat) (bl : Bundle)
+    (hrom : RomSpec romRun genRun puz) (hdom : RomCostDominates romRun genRun puz)
+    (hint : hasFlag p.flags Gen.flagInternedGenerator = false)
+    (h : legacy p g romRun L = .ok bl) :
+    ∃ bn, native p g genRun puz L = .ok bn ∧ SameConditions bn bl ∧ bn.cost ≤ bl.cost ∧
+      bn.executionCost ≤ bl.executionCost :=
+  legacy_accepts_native_accepts_size p g genRun romRun puz L bl hrom hdom
+    (by simp [nativeSize, hint]) h
+
+/-- **Both reject**: under the same hypotheses, whatever the native path rejects the legacy path rejects. -/
+theorem native_rejects_legacy_rejects (p : Params) (g : GenInput) (genRun romRun : RunRes) (puz : Nat → RunRes)
+    (L : Nat) (e : Err)
+    (hrom : RomSpec romRun genRun puz) (hdom : RomCostDominates romRun genRun puz)
+    (hint : hasFlag p.flags Gen.flagInternedGenerator = false)
+    (h : native p g genRun puz L = .error e) : ∃ e', legacy p g romRun L = .error e' := by
+  cases hl : legacy p g romRun L with
+  | error e' => exact ⟨e', rfl⟩
+  | ok bl =>
+    obtain ⟨bn, hn, _⟩ := legacy_accepts_native_accepts p g genRun romRun puz L bl hrom hdom hint hl
+    rw [h] at hn; cases hn
+
+/-! ## native accepts ⇒ legacy accepts, or fails for cost / inside the interpreter -/
+
+/-- decomposition of an accepting native run (byte-cost mode) -/
+theorem native_ok {p : Params} {g : GenInput} {genRun : RunRes} {puz : Nat → RunRes} {L : Nat} {bn : Bundle}
+    (hint : hasFlag p.flags Gen.flagInternedGenerator = false)
+    (h : native p g genRun puz L = .ok bn) :
+    ¬(simpleGen p.flags ∧ (!g.startsQuote) = true) ∧ ¬(simpleGen p.flags ∧ g.nrefs > 0) ∧
+    g.len * p.costPerByte ≤ L ∧ generatorNodeOk p.flags g.prog = true ∧
+    ∃ gc allSpends args retN st left bn0, genRun = some (gc, .pair allSpends args) ∧ gc ≤ L - g.len * p.costPerByte ∧
+      nativeLoop { flags := p.flags, mempool := false, pkOk := p.pkOk } puz allSpends 0 { executionCost := gc } {}
+        (spendLimit p.flags) (L - g.len * p.costPerByte - gc) = .ok ((retN, st), left) ∧
+      finishBundle { flags := p.flags, mempool := false, pkOk := p.pkOk } p.sigOk retN st = .ok bn0 ∧
+      bn = { bn0 with cost := L - left } := by
+  unfold native at h
+  split at h
+  · cases h
+  rename_i hq
+  simp only [hint, Bool.false_eq_true, if_false] at h
+  cases h1 : subtractCost L (g.len * p.costPerByte) with
+  | error e => rw [h1] at h; cases h
+  | ok c1 =>
+    rw [h1] at h; simp only at h
+    split at h
+    · cases h
+    rename_i hnode
+    split at h
+    · cases h
+    rename_i hr
+    cases h2 : runWithLimit genRun c1 with
+    | error e => rw [h2] at h; cases h
+    | ok r =>
+      obtain ⟨gc, gout⟩ := r
+      rw [h2] at h; simp only at h
+      cases h3 : subtractCost c1 gc with
+      | error e => rw [h3] at h; cases h
+      | ok c2 =>
+        rw [h3] at h; simp only at h
+        cases gout with
+        | atom b => simp only [first] at h; cases h
+        | pair allSpends args =>
+          simp only [first] at h
+          split at h
+          · cases h
+          cases h4 : nativeLoop { flags := p.flags, mempool := false, pkOk := p.pkOk } puz allSpends 0 { executionCost := gc } {}
+              (spendLimit p.flags) c2 with
+          | error e => rw [h4] at h; cases h
+          | ok q =>
+            obtain ⟨⟨retN, st⟩, left⟩ := q
+            rw [h4] at h; simp only at h
+            cases h5 : finishBundle { flags := p.flags, mempool := false, pkOk := p.pkOk } p.sigOk retN st with
+            | error e => rw [h5] at h; cases h
+            | ok bn0 =>
+              rw [h5] at h; simp only at h
+              injection h with h
+              obtain ⟨a1, a2⟩ := subtractCost_ok h1
+              obtain ⟨a3, a4⟩ := subtractCost_ok h3
+              obtain ⟨b1, b2⟩ := runWithLimit_ok h2
+              subst a2; subst a4
+              exact ⟨hq, hr, a1, by simpa using hnode, gc, allSpends, args, retN, st, left, bn0, b1, b2, h4, h5, h.symm⟩
+
+/-- the legacy path, evaluated up to the spend loop of `parse_spends` -/
+theorem legacy_eval {p : Params} {g : GenInput} {romRun : RunRes} {L rc : Nat} {l args : Sexp}
+    (hq : ¬(simpleGen p.flags ∧ (!g.startsQuote) = true)) (hr : ¬(simpleGen p.flags ∧ g.nrefs > 0))
+    (hbase : g.len * p.costPerByte ≤ L) (hnode : generatorNodeOk p.flags g.prog = true)
+    (hrun : romRun = some (rc, .pair l args)) (hrc : rc ≤ L - g.len * p.costPerByte) :
+    legacy p g romRun L =
+      match spendLoop { flags := p.flags, mempool := false, pkOk := p.pkOk } 0 l {} {} (spendLimit p.flags)
+          (L - g.len * p.costPerByte - rc) with
+      | .error e => .error e
+      | .ok ((ret, st), left) =>
+        match finishBundle { flags := p.flags, mempool := false, pkOk := p.pkOk } p.sigOk ret st with
+        | .error e => .error e
+        | .ok ret => .ok { ret with cost := L - g.len * p.costPerByte - rc - left + (L - (L - g.len * p.costPerByte - rc)),
+                                    executionCost := rc } := by
+  unfold legacy
+  rw [if_neg hq, if_neg hr, subtractCost_of_le hbase]
+  simp only
+  rw [if_neg (by simp [hnode]), hrun, runWithLimit_of_le hrc]
+  simp only
+  rw [subtractCost_of_le (by omega)]
+  simp only [parseSpends, first]
+  cases spendLoop { flags := p.flags, mempool := false, pkOk := p.pkOk } 0 l {} {} (spendLimit p.flags)
+      (L - g.len * p.costPerByte - rc) with
+  | error e => rfl
+  | ok q =>
+    obtain ⟨⟨ret, st⟩, left⟩ := q
+    simp only
+    cases finishBundle { flags := p.flags, mempool := false, pkOk := p.pkOk } p.sigOk ret st with
+    | error e => rfl
+    | ok ret' => rfl
+
+/-- **Native accepts ⇒ legacy accepts with the same conditions, or legacy fails for cost, or the ROM
+run itself raises** (the permitted asymmetry: the legacy path pays the ROM's own execution cost and
+runs inside the interpreter's resource limits).  Hypotheses: `RomSpec` and no `INTERNED_GENERATOR`.
+No assumption on CLVM cost accounting is needed for this direction. -/
+theorem native_accepts_legacy (p : Params) (g : GenInput) (genRun romRun : RunRes) (puz : Nat → RunRes)
+    (L : Nat) (bn : Bundle)
+    (hrom : RomSpec romRun genRun puz)
+    (hint : hasFlag p.flags Gen.flagInternedGenerator = false)
+    (h : native p g genRun puz L = .ok bn) :
+    (∃ bl, legacy p g romRun L = .ok bl ∧ SameConditions bn bl) ∨
+    legacy p g romRun L = .error .costExceeded ∨ romRun = none := by
+  obtain ⟨hq, hr, hbase, hnode, gc, allSpends, args, retN, st, left, bn0, hgen, hgc, hloop, hfin, rfl⟩ := native_ok hint h
+  cases hrun : romRun with
+  | none => exact Or.inr (Or.inr rfl)
+  | some q =>
+    obtain ⟨rc, out⟩ := q
+    obtain ⟨gc', cs, args', l, hgen', hrec, rfl⟩ := romModel_ok (hrom rc out hrun)
+    rw [hgen] at hgen'
+    injection hgen' with hgen'; injection hgen' with e1 e2; injection e2 with e2 e3
+    subst e1; subst e2; subst e3
+    by_cases hrc : rc ≤ L - g.len * p.costPerByte
+    · have hev := legacy_eval hq hr hbase hnode hrun hrc
+      rw [← hrun, hev]
+      obtain ⟨hsum, retL, hL, hrelL, _⟩ := spendLoop_of_nativeLoop { flags := p.flags, mempool := false, pkOk := p.pkOk } puz
+        allSpends 0 l hrec { executionCost := gc } {} {} (spendLimit p.flags) (L - g.len * p.costPerByte - gc) retN st left
+        hloop ⟨rfl, rfl⟩
+      obtain ⟨bl0, hfinL, hrel0, _⟩ := finishBundle_execRel (env := { flags := p.flags, mempool := false, pkOk := p.pkOk })
+        rfl p.sigOk hrelL st hfin
+      -- compare the two budgets of the condition countdown
+      by_cases hcmp : L - g.len * p.costPerByte - gc - puzCostSum puz allSpends 0 ≤ L - g.len * p.costPerByte - rc
+      · -- legacy has at least the native budget: it accepts
+        have hup := shiftUp_spendLoop { flags := p.flags, mempool := false, pkOk := p.pkOk } 0 l {} {} (spendLimit p.flags)
+          _ (retL, st) left hL
+          (L - g.len * p.costPerByte - rc - (L - g.len * p.costPerByte - gc - puzCostSum puz allSpends 0))
+        simp only at hup
+        have e : L - g.len * p.costPerByte - gc - puzCostSum puz allSpends 0
+            + (L - g.len * p.costPerByte - rc - (L - g.len * p.costPerByte - gc - puzCostSum puz allSpends 0))
+            = L - g.len * p.costPerByte - rc := by omega
+        rw [e] at hup
+        rw [hup]; simp only; rw [hfinL]; simp only
+        exact Or.inl ⟨_, rfl, (sameConditions_of_execRel hrel0.symm _ _ _ _ : SameConditions { bn0 with cost := _, executionCost := bn0.executionCost } _)⟩
+      · obtain ⟨_, d2, d3⟩ := shift_spendLoop { flags := p.flags, mempool := false, pkOk := p.pkOk } 0 l {} {} (spendLimit p.flags)
+          _ (retL, st) left hL
+        have e : L - g.len * p.costPerByte - rc = L - g.len * p.costPerByte - gc - puzCostSum puz allSpends 0
+            - (L - g.len * p.costPerByte - gc - puzCostSum puz allSpends 0 - (L - g.len * p.costPerByte - rc)) := by omega
+        by_cases hfit : L - g.len * p.costPerByte - gc - puzCostSum puz allSpends 0 - (L - g.len * p.costPerByte - rc) ≤ left
+        · have hdn := d2 _ hfit
+          simp only at hdn
+          rw [← e] at hdn
+          rw [hdn]; simp only; rw [hfinL]; simp only
+          exact Or.inl ⟨_, rfl, (sameConditions_of_execRel hrel0.symm _ _ _ _ : SameConditions { bn0 with cost := _, executionCost := bn0.executionCost } _)⟩
+        · have hdn := d3 (L - g.len * p.costPerByte - gc - puzCostSum puz allSpends 0 - (L - g.len * p.costPerByte - rc))
+            (by omega) (by omega)
+          simp only at hdn
+          rw [← e] at hdn
+          rw [hdn]
+          exact Or.inr (Or.inl rfl)
+    · refine Or.inr (Or.inl ?_)
+      unfold legacy
+      rw [if_neg hq, if_neg hr, subtractCost_of_le hbase]
+      simp only
+      rw [if_neg (by simp [hnode])]
+      simp only [runWithLimit]
+      rw [if_pos (by omega)]
+
+/-! ## non-vacuity of the hypotheses -/
+namespace Witness
+
+def p0 : Params := { flags := 0, pkOk := fun _ => true, sigOk := fun _ => true }
+def g0 : GenInput := { len := 5, startsQuote := true, prog := Sexp.nil, nrefs := 0 }
+def spend0 : Sexp := Sexp.ofList [.atom (List.replicate 32 7), .atom [1], .atom [], Sexp.nil]
+def genRun0 : RunRes := some (10, .pair (Sexp.ofList [spend0]) Sexp.nil)
+def puz0 : Nat → RunRes := fun _ => some (5, Sexp.nil)
+def romRun0 : RunRes :=
+  some (50, .pair (Sexp.ofList [Sexp.ofList [.atom (List.replicate 32 7), .atom (Sexp.treeHash (.atom [1])), .atom [], Sexp.nil]]) Sexp.nil)
+
+/-- `RomSpec` holds on a one-spend generator -/
+example : RomSpec romRun0 genRun0 puz0 := by
+  intro c out h
+  injection h with h; injection h with h1 h2
+  subst h2; rfl
+
+/-- `RomCostDominates` holds there (50 ≥ 10 + 5) -/
+example : RomCostDominates romRun0 genRun0 puz0 := by
+  intro rc out gc spends args h1 h2
+  injection h1 with h1; injection h1 with h1 _
+  injection h2 with h2; injection h2 with h2 h3; injection h3 with h3 _
+  subst h1; subst h2; subst h3
+  decide
+
+/-- and the legacy path accepts it, so `legacy_accepts_native_accepts` is not vacuous -/
+example : ∃ bl, legacy p0 g0 romRun0 1000000 = .ok bl := ⟨_, rfl⟩
+
+/-- the native path accepts it as well (`native_accepts_legacy` is not vacuous) -/
+example : ∃ bn, native p0 g0 genRun0 puz0 1000000 = .ok bn := ⟨_, rfl⟩
+
+end Witness
 
 end ChiaModel.C07
